@@ -28,7 +28,8 @@ Definition store_init (c : stat_cfg) : store := c.
 Definition store_read (s : store) (thread : N) : stat_cfg := s.
 
 (** what a process observes after offering a configuration: acceptance; the four values read
-    on the initialising thread and on another thread; building an entry on either thread (no
+    on the initialising thread, on a thread spawned afterwards and on a worker thread that was
+    already running (and had read the configuration) before; building an entry on either thread (no
     panic) and the geometry of the node that was created there *)
 Definition zN (n : N) : Z := Z.of_N n.
 Definition cfg_values (c : stat_cfg) : list Z := [zN (sc_total c); zN (iv_total c); zN (sc_metric c); zN (iv_metric c)].
@@ -40,5 +41,6 @@ Definition node_obs (c : stat_cfg) : list Z :=
 Definition cfg_obs (c : stat_cfg) : list Z :=
   if cfg_check c then
     1%Z :: cfg_values (store_read (store_init c) 0) ++ cfg_values (store_read (store_init c) 1)
+        ++ cfg_values (store_read (store_init c) 2)
         ++ node_obs (store_read (store_init c) 0) ++ node_obs (store_read (store_init c) 1)
   else [0%Z].
